@@ -36,7 +36,9 @@ ConvWrong(e) ==
 BlockWrong(e) ==
     {f \in {"hex", "rgb", "nrgb", "tc", "img", "get"} : \E i \in 1..Len(e[f]) : e[f][i] # e.base + i - 1}
 
-\* FindColor: result is a member, and no member is strictly closer (tolerance tol on scaled distances)
+\* FindColor: result is a member, and no member is strictly closer.  Distances are delta-E (CIE76) scaled by 10^6,
+\* computed by the harness's own CIELAB code; tol absorbs what the definition leaves open (4- or 7-digit sRGB matrix,
+\* white point digits): implementations that are both "CIE76" differ by about 10^-4 delta-E on near-ties.
 FindWrong(e, tol) ==
     IF Len(e.pal) = 0 THEN (IF e.isdefault THEN {} ELSE {"empty_palette"})
     ELSE IF e.idx < 1 \/ e.idx > Len(e.pal) THEN {"not_a_member"}
